@@ -72,6 +72,20 @@ impl Socket for RepSocket {
     }
 }
 
+impl RepSocketBackend {
+    /// `peer_disconnected` for a caller that held the peer's table entry across an await. Meanwhile
+    /// a task registering another peer may have queued for the same bucket; it is next in line
+    /// and may need this very thread to run, so the removal is awaited: a blocking wait could
+    /// never be granted on a single-threaded runtime.
+    async fn forget_peer(&self, peer_id: &PeerIdentity) {
+        if let Some(monitor) = self.monitor().lock().as_mut() {
+            let _ = monitor.try_send(SocketEvent::Disconnected(peer_id.clone()));
+        }
+        self.peers.remove_async(peer_id).await;
+        self.fair_queue_inner.lock().remove(peer_id);
+    }
+}
+
 #[async_trait]
 impl MultiPeerBackend for RepSocketBackend {
     async fn peer_connected(self: Arc<Self>, peer_id: &PeerIdentity, io: FramedIo) {
@@ -131,7 +145,7 @@ impl SocketSend for RepSocket {
                     let sent = peer.send_queue.send(Message::Message(message)).await;
                     drop(peer);
                     if let Err(e) = sent {
-                        self.backend.peer_disconnected(&peer_id);
+                        self.backend.forget_peer(&peer_id).await;
                         return Err(e.into());
                     }
                     Ok(())
